@@ -61,11 +61,12 @@ def baseProb {α : Type} (A : Arith α) (n : Nat) : α :=
 
 /-- entries `0 .. len−1` of the cumulative table for normaliser `base`:
     `cdf[0] = base`, `cdf[i] = cdf[i−1] + base / pow(i+1, α)` -/
+def cumulStep {α : Type} (A : Arith α) (base : α) (clamp : Bool) (t : Array α) (i : Nat) : Array α :=
+  t.push (if clamp then A.clamp1 (A.add (t.getD i A.zero) (A.div base (A.powNat (i + 2))))
+          else A.add (t.getD i A.zero) (A.div base (A.powNat (i + 2))))
+
 def cumul {α : Type} (A : Arith α) (base : α) (len : Nat) (clamp : Bool) : Array α :=
-  (List.range (len - 1)).foldl (fun (t : Array α) i =>
-      let x := A.add (t.getD i A.zero) (A.div base (A.powNat (i + 2)))
-      t.push (if clamp then A.clamp1 x else x))
-    #[base]
+  (List.range (len - 1)).foldl (cumulStep A base clamp) #[base]
 
 /-- `ZipfDistribution::UpdateCDF` for `n` bins (`n ≥ 1`) -/
 def exactTable {α : Type} (A : Arith α) (n : Nat) : Array α :=
